@@ -28,6 +28,12 @@ def run_history(ctx):
         shared_metrics = FMMetrics()
         # models that look alike (same names in other positions, equal-but-different models)
         base = g.model(g.rng.choice([1, 3, 5, 8]), kinds=kinds, ctc_depth=2, abstract=True)
+        bn = [f["name"] for f in spec.spec_features(base["root"])]
+        if len(bn) >= 4 and g.rng.random() < 0.5:
+            # AND/OR only, an AND under an OR under an OR: the shape the core's in-place CNF step rewrites
+            a, b, c, d = (spec.T(x) for x in g.rng.sample(bn, 4))
+            base["ctcs"].append(("andor", g.rng.choice([spec.OP("OR", spec.OP("OR", spec.OP("AND", a, b), c), d),
+                                                         spec.OP("OR", a, spec.OP("OR", b, spec.OP("AND", c, d)))])))
         seq = [base]
         m2 = copy.deepcopy(base)
         feats = list(spec.spec_features(m2["root"]))
@@ -72,6 +78,16 @@ def run_history(ctx):
                 st.oracle_fail(f"seq{j}", req, "metrics-raise", spec.exn_name(e))
             if sx.dumps(spec.fm_sx(spec.dump_fm(fm))) != before:
                 st.oracle_fail(f"seq{j}", req, "metrics-mutated-the-model", "")
+            if j == 0:
+                # the same model OBJECT edited in place and analysed again by the same operation objects
+                b2 = spec.same_shape_variant(m, g.rng)
+                spec.retarget(fm, b2)
+                req2 = sx.dumps(tag("ops", spec.fm_sx(b2)))
+                got2 = suite_o.impl_ops(fm, KEYS, shared)
+                st.record("edited-in-place", req2, repr(got2), repr(suite_o.model_ops(sx.loads(ctx.model.call_raw(req2)), KEYS)))
+                alone2 = clean.call(b2, KEYS)
+                if "error" not in alone2 and alone2["ops"] != repr(got2):
+                    st.oracle_fail("edited-in-place", req2, "result-depends-on-the-model-before-the-edit", "")
     clean.close()
 
 
@@ -175,6 +191,8 @@ def run_genrandom(ctx):
                 f["attrs"].append(spec.A(name, default=g.rng.choice(["preset", None, 0, False, ""])))
             if g.rng.random() < 0.2:
                 f["attrs"].append(spec.A("other", default=7))
+            if g.rng.random() < 0.2:
+                f["attrs"].append(spec.A(name + "_max", default=9))     # contains the requested name, is not it
         fm = spec.build_fm(m)
         op = GenerateRandomAttribute()
         op.set_name(name)
@@ -186,7 +204,8 @@ def run_genrandom(ctx):
                 res = op.execute(fm).get_result()
             after = spec.dump_fm(res)
             same_object = res is fm
-            irep = sx.dumps(tag("ok", spec.fm_sx(after)))
+            # round(-0.0027, 2) is -0.0 in Python and the decimal 0 in the model: the same number
+            irep = sx.dumps(tag("ok", spec.fm_sx(after))).replace('(fl "-0.0")', '(fl "0.0")')
         except Exception as e:  # noqa: BLE001
             after = None
             irep = sx.dumps(tag("err", Sym(spec.exn_name(e))))
